@@ -1,11 +1,11 @@
 // c16: correspondence harness for property C16 (Merkle proofs).
-//  - SMT level (key widths 8, 16, 160): for generated states, the real GetMerkleProof / VerifyProof are run on honest
-//    proofs, honest proofs offered for OTHER keys (present, absent, neighbours), and mutated proofs (truncated, reordered,
-//    duplicated node, flipped side bit, flipped value/key bytes, wrong claimed value, wrong root, malformed key bytes,
-//    over-long keys, empty proof) under recover; verdicts are compared in Coq with model/Proof.v and with the truth of the
-//    claim (soundness predicate); a panic is a direct violation.
-//  - Store level: blocks are committed on the real Store; for every committed version v a read-only store at v must
-//    produce a proof that verifies against the root committed for v (completeness), for present and absent keys.
+//   - SMT level (key widths 8, 16, 160): for generated states, the real GetMerkleProof / VerifyProof are run on honest
+//     proofs, honest proofs offered for OTHER keys (present, absent, neighbours), and mutated proofs (truncated, reordered,
+//     duplicated node, flipped side bit, flipped value/key bytes, wrong claimed value, wrong root, malformed key bytes,
+//     over-long keys, empty proof) under recover; verdicts are compared in Coq with model/Proof.v and with the truth of the
+//     claim (soundness predicate); a panic is a direct violation.
+//   - Store level: blocks are committed on the real Store; for every committed version v a read-only store at v must
+//     produce a proof that verifies against the root committed for v (completeness), for present and absent keys.
 package main
 
 import (
